@@ -3,6 +3,7 @@
 (* (VIEW = representation attributes): the initial loads, the concrete shortest path to the source state,    *)
 (* the step, and the model's prediction for the register the step wrote / observed.                          *)
 (*   VFF  field layer    VFG  group layer    VFB  one line per table entry with TableScalar                  *)
+(*   VFL  one line per (limb pattern, magnitude variant) with the operations the contract allows on it         *)
 EXTENDS Curve, Json
 
 CONSTANT EmitAt     \* 0 = one line per transition (BFS export); n > 0 = one line per behaviour of n steps (simulation)
@@ -57,9 +58,10 @@ XInit == /\ Init /\ h = <<>>
                   ELSE [kind |-> "group", r1 |-> "", r2 |-> "", g1 |-> gr[1], g2 |-> gr[2]]
 
 XNext == /\ ini' = ini
-         /\ \/ Mode = "field" /\ len < MaxLen /\ GFStep /\ len' = len + 1 /\ UNCHANGED <<gr, tb, fm>>
-            \/ Mode = "group" /\ len < MaxLen /\ GGStep /\ len' = len + 1 /\ UNCHANGED <<fr, tb, fm>>
-            \/ Mode = "tables" /\ GTStep /\ UNCHANGED <<fr, gr, fm, len>>
+         /\ \/ Mode = "field" /\ len < MaxLen /\ GFStep /\ len' = len + 1 /\ UNCHANGED <<gr, tb, fm, lb>>
+            \/ Mode = "group" /\ len < MaxLen /\ GGStep /\ len' = len + 1 /\ UNCHANGED <<fr, tb, fm, lb>>
+            \/ Mode = "tables" /\ GTStep /\ UNCHANGED <<fr, gr, fm, lb, len>>
+            \/ Mode = "limbs" /\ LStep /\ h' = h /\ PrintT(<<"VFL", ToJson(lb')>>) /\ UNCHANGED <<fr, gr, tb, fm, len>>
 
 XSpec == XInit /\ [][XNext]_gvars
 =============================================================================
